@@ -31,6 +31,44 @@ type internalHandler struct {
 	filter         any // Predicate function for filtering events
 	mu             sync.Mutex
 	executed       uint32 // For once handlers, atomically tracks if executed
+
+	// Ticket lock for Async+Sequential handlers: invocations run in the
+	// order in which they were dispatched, not in goroutine start order
+	seqMu      sync.Mutex
+	seqCond    *sync.Cond
+	seqTickets uint64 // next ticket to hand out
+	seqServing uint64 // ticket whose turn it is
+}
+
+// takeTicket reserves the next turn; called by the publisher at dispatch
+func (h *internalHandler) takeTicket() uint64 {
+	h.seqMu.Lock()
+	t := h.seqTickets
+	h.seqTickets++
+	h.seqMu.Unlock()
+	return t
+}
+
+// awaitTurn blocks until every earlier ticket has been released
+func (h *internalHandler) awaitTurn(ticket uint64) {
+	h.seqMu.Lock()
+	if h.seqCond == nil {
+		h.seqCond = sync.NewCond(&h.seqMu)
+	}
+	for h.seqServing != ticket {
+		h.seqCond.Wait()
+	}
+	h.seqMu.Unlock()
+}
+
+// releaseTurn passes the turn to the next ticket
+func (h *internalHandler) releaseTurn() {
+	h.seqMu.Lock()
+	h.seqServing++
+	if h.seqCond != nil {
+		h.seqCond.Broadcast()
+	}
+	h.seqMu.Unlock()
 }
 
 // PanicHandler is called when a handler panics
@@ -411,9 +449,19 @@ func PublishContext[T any](bus *EventBus, ctx context.Context, event T) {
 		if h.async {
 			wg.Add(1)
 			bus.wg.add()
+			var ticket uint64
+			if h.sequential {
+				ticket = h.takeTicket()
+			}
 			go func(handler *internalHandler) {
 				defer wg.Done()
 				defer bus.wg.done()
+
+				// Sequential async handlers process events in publish order
+				if handler.sequential {
+					handler.awaitTurn(ticket)
+					defer handler.releaseTurn()
+				}
 
 				// Check context before executing
 				select {
